@@ -33,6 +33,8 @@ def validateTokTable : Nat → Tok
   | 4 => { issuer := 2, subject := 3, sigValid := true }
   | 5 => { issuer := 1, subject := 3, sigValid := false }
   | 6 => { issuer := 1, subject := 3, sigValid := false }
+  | 8 => { issuer := 1, subject := 2, sigValid := false }  -- forged: the signature of token 1 on another body
+  | 9 => { issuer := 1, subject := 2, sigValid := false }  -- forged: the signature of token 3 on another body
   | _ => { issuer := 1, subject := 2, sigValid := true }
 
 /-- object code `sigBad*1000 + token*100 + owner*10 + signer` -/
@@ -41,7 +43,7 @@ def validateAuthObj (code : Nat) : Option AObj :=
   let tok := code / 100 % 10
   let owner := code / 10 % 10
   let signer := code % 10
-  if sigBad > 1 || tok > 7 || owner < 1 || owner > 3 || signer < 1 || signer > 3 then none
+  if sigBad > 1 || tok > 9 || owner < 1 || owner > 3 || signer < 1 || signer > 3 then none
   else some { owner := owner, signer := signer, sigOk := sigBad == 0, tok := if tok = 0 then none else some tok }
 
 /-- content verdict of the engine's object table (`valContentOK`): `none` = not in the table -/
